@@ -19,6 +19,10 @@ def flatten_text_tags(p, text_tags):
         for c in n.kids:
             if c.kind == "e":
                 out.append(itertext(c))
+            else:
+                # a comment that survived inside a text tag (both documents are compared with their comments removed, so
+                # only an output can have one): it stays visible in the flattened content
+                out.append("<!--%s-->" % (c.text or ""))
             out.append(c.tail or "")
         return "".join(out)
 
